@@ -55,11 +55,11 @@ def build(reg):
     lemma("rt_unsubscribed", "Unsubscribed", {"_request": "int", "_subscription": "opt:int", "_reason": "opt:str"},
           [ID % "_request", "implies(m._reason is not None, %s)" % (URI_OK % "_reason"),
            # constructor invariant: a router-initiated revocation (request 0) names the subscription, an answer does not
-           "implies(m._subscription is not None, m._request == 0 and m._subscription != 0)"],
+           "implies(m._subscription is not None, m._request == 0 and m._subscription != 0 and %s)" % (ID % "_subscription")],
           ["request", "subscription", "reason"])
     lemma("rt_unregistered", "Unregistered", {"_request": "int", "_registration": "opt:int", "_reason": "opt:str"},
           [ID % "_request", "implies(m._reason is not None, %s)" % (URI_OK % "_reason"),
-           "implies(m._registration is not None, m._request == 0 and m._registration != 0)"],
+           "implies(m._registration is not None, m._request == 0 and m._registration != 0 and %s)" % (ID % "_registration")],
           ["request", "registration", "reason"])
 
     lemma("rt_goodbye", "Goodbye", {"_reason": "str", "_message": "opt:str", "_resumable": "opt:bool"},
@@ -104,7 +104,10 @@ try:
 except AssertionError as e:
     print(json.dumps({"skip": "not a valid message object for this class: %r" % (e,)})); raise SystemExit
 raw = m.marshal()
-r1 = cls.parse(raw)
+try:
+    r1 = cls.parse(raw)
+except Exception as e:
+    print(json.dumps({"diff": {"parse": "parse(marshal(m)) raised %r" % (e,)}, "wire": repr(raw)})); raise SystemExit
 diff = {}
 for f in kw:
     a = getattr(m, f); b = getattr(r1, f)
